@@ -1182,9 +1182,13 @@ def gen_connect_chain(rng):
         comps.append({"kind": "T", "start": 0, "steps": [unit * rng.choice([1, 2, 3])], "initpull": k > 0, "nout": 1,
                       "pap": k > 0 and rng.random() < 0.8,
                       "inputs": [] if k == 0 else [{"src": [k - 1, 0], "chain": [["pass"]] if rng.random() < 0.3 else []}]})
+    if rng.random() < 0.6:
+        # the last one also reads the head of the chain: its two initial pulls are served in different connect rounds
+        comps[-1]["inputs"].insert(rng.randrange(2), {"src": [0, 0], "chain": []})
+        comps[-1]["pap"] = True
     order = list(range(n))
     rng.shuffle(order)
-    return {"comps": permute(comps, order), "end": unit * rng.choice([4, 6, 9]), "samename": True}
+    return {"comps": permute(comps, order), "end": unit * rng.choice([4, 6, 9]), "samename": rng.random() < 0.7}
 
 
 def gen_shared_and_own(rng):
